@@ -22,10 +22,12 @@ static int build_mixed(rng_t *r,int thorough,buf_t *out,char *desc,size_t dn,int
     int model= force_model || rng_chance(r,0.3);
     pktlist_t pk; pktlist_init(&pk); int havepk=0; encres_t er;
     if(model){
-      sp_setup *S=sp_gen_setup(r,(int)rng_below(r,SP_NPROFILES),1); int np=(int)rng_range(r,2,30);
+      sp_setup *S=sp_gen_setup(r,(int)rng_below(r,SP_NPROFILES),1); int np=(int)rng_range(r,2,30); int unb= rng_chance(r,0.15);   /* some model links open but cannot be decoded (over-populated codebook): every read or seek into them is refused, again and again */
       if(((long)S->channels<<S->bs1exp)>(1L<<17)) np=VH_MIN(np,6);
       sp_gen_stream(r,S,np,&pk,(int)rng_below(r,2)); havepk=1;
-      if(k+60<dn) k+=snprintf(desc+k,dn-k," [model ch%d bs%d/%d %dpk]",S->channels,1<<S->bs0exp,1<<S->bs1exp,np);
+      if(unb){ int bad=0; for(int b=0;b<S->nbooks && !bad;b++){ sp_book *B=&S->books[b]; if(B->ordered||B->used<3) continue; long e=B->used_idx[rng_below(r,(uint32_t)B->used)]; if(B->len[e]>1){ B->len[e]=1; bad=1; } }
+        if(bad){ buf_t h0,h1,h2; buf_init(&h0); buf_init(&h1); buf_init(&h2); sp_write_headers(S,&h0,&h1,&h2); free(pk.v[2].data); pk.v[2].data=malloc(h2.n); memcpy(pk.v[2].data,h2.p,h2.n); pk.v[2].bytes=(long)h2.n; buf_free(&h0); buf_free(&h1); buf_free(&h2); } else unb=0; }
+      if(k+60<dn) k+=snprintf(desc+k,dn-k," [model ch%d bs%d/%d %dpk%s]",S->channels,1<<S->bs0exp,1<<S->bs1exp,np,unb?" UNDECODABLE":"");
       sp_free_setup(S);
     } else {
       enccfg_t c; enccfg_default(&c); static const long rates[]={8000,11025,22050,44100,48000}; c.rate=rates[rng_below(r,5)]; c.channels=rng_chance(r,0.1)?(int)rng_range(r,3,6):(int)rng_range(r,1,2);
@@ -72,7 +74,10 @@ static void damage(rng_t *r,buf_t *s,int kind){
       else { /* single link: duplicate the whole link behind itself (same serial twice) */ buf_add(&o,s->p,s->n); } } break;
   case 7: buf_add(&o,s->p,s->n); for(int i=0;i<np;i++) if(pg[i].eos && rng_chance(r,0.7)){ o.p[pg[i].off+5]&=~4; fix_crc(o.p+pg[i].off,pg[i].len); } break;
   case 8: case 9: buf_add(&o,s->p,s->n); { int t=(int)rng_range(r,1,4); for(int k=0;k<t;k++){ int i=(int)rng_below(r,(uint32_t)np); ogg_int64_t g= kind==9?-1: rng_chance(r,0.3)?0: rng_chance(r,0.5)?(ogg_int64_t)rng_range(r,0,1000000):(ogg_int64_t)(rng_next(r)>>(rng_below(r,40)));
-        if(rng_chance(r,0.2)) g=-g; unsigned char *p=o.p+pg[i].off; for(int b=0;b<8;b++) p[6+b]=(unsigned char)((uint64_t)g>>(8*b)); fix_crc(p,pg[i].len); } } break;
+        if(rng_chance(r,0.2)) g=-g;
+        if(kind==8 && rng_chance(r,0.35)){ /* a modest lie: a link's last page claims a few hundred samples more than were coded (a phantom tail that seeks can be aimed at) */
+          int ne=0; for(int q=0;q<np;q++) if(pg[q].eos) ne++; if(ne){ int w=(int)rng_below(r,(uint32_t)ne); for(int q=0;q<np;q++) if(pg[q].eos && w--==0){ i=q; g=pg[q].granule+(ogg_int64_t)rng_range(r,20,400); break; } } }
+        unsigned char *p=o.p+pg[i].off; for(int b=0;b<8;b++) p[6+b]=(unsigned char)((uint64_t)g>>(8*b)); fix_crc(p,pg[i].len); } } break;
   case 10: buf_add(&o,s->p,(size_t)rng_range(r,0,(long)s->n)); break;
   case 11: case 12: buf_add(&o,s->p,s->n); { int t=(int)rng_range(r,1,12); for(int k=0;k<t&&o.n;k++){ size_t at=rng_below(r,(uint32_t)o.n); o.p[at]^=(unsigned char)(1<<rng_below(r,8)); }
       if(kind==12 && np){ pageinfo_t *q=NULL; int nq=page_scan(s->p,s->n,&q); for(int i=0;i<nq;i++) if(o.p[q[i].off+26]==s->p[q[i].off+26]) fix_crc(o.p+q[i].off,q[i].len); free(q); } } break;
